@@ -174,7 +174,7 @@ RunBody(cc, code, s, ctx) ==
 
 \* one run of a compiled program: the same observable record as EFSemantics!RunProgram
 RunCompiled(cc, g, obj, host, fuel) ==
-  LET ctx == [funcs |-> <<>>, obj |-> obj, host |-> host]
+  LET ctx == [funcs |-> <<>>, obj |-> obj, host |-> host, nsre |-> "skip"]
       r == RunBody(cc, cc.code, [g |-> g, sc |-> <<>>, calls |-> <<>>, ret |-> NONE, st |-> "ok", fuel |-> fuel, ips |-> <<>>], ctx)
       s == r.s
   IN [out |-> CASE s.st = "err" -> ERR
